@@ -21,10 +21,19 @@ CaseShapes ==
     {<<a_, b_>> : a_ \in 2..CaseMax, b_ \in 2..CaseMax}
     \cup {<<a_, b_, c_>> : a_ \in 2..CaseMax, b_ \in 2..CaseMax, c_ \in 2..CaseMax}
     \cup {<<5, 6, 7>>, <<8, 7, 9>>, <<12, 11, 10>>, <<6, 6, 6>>, <<12, 12>>, <<7, 10>>, <<9, 4>>}
+\* non-integer axes: the axes divided by den (a power of two, exact in binary floating point) scale the
+\* volume - and with it every weight - by den^-D; origins do not enter the weights
+DenW(s_) == 2 ^ (1 + ((s_[1] + s_[2]) % 3))
+OriginW(s_) == [d_ \in 1..Len(s_) |-> ((3 * s_[d_] + d_) % 7) - 3]
+\* routes: the alternative constructors that take the name of a scheme and hand it on
+\* (from_cube in both return modes; three-dimensional grids only - cube files are 3D)
+HasRoutes(s_) == Len(s_) = 3 /\ (NPoints(s_) <= 27 \/ s_ \in {<<5, 6, 7>>, <<4, 5, 3>>})
 WeightCase(s_) ==
     [shape |-> s_, axes |-> AxesW(s_), volume |-> BoxVolume(AxesW(s_), s_),
      rect |-> SchemeW("Rectangle", s_), trap |-> SchemeW("Trapezoid", s_), alt |-> SchemeW("Alternative", s_),
-     bound |-> DeviationBound(s_), fourier1 |-> Fourier1W(s_)]
+     bound |-> DeviationBound(s_), fourier1 |-> Fourier1W(s_),
+     den |-> DenW(s_), volume_scaled |-> Q(BoxVolume(AxesW(s_), s_), DenW(s_) ^ Len(s_)),
+     origin |-> OriginW(s_), routes |-> HasRoutes(s_)]
 ASSUME Emit => JsonSerialize("cases_weights.json", SetToSeq({WeightCase(s_) : s_ \in CaseShapes}))
 
 VARIABLES wpc, wshape
@@ -54,4 +63,9 @@ WeightSums ==
            /\ \A nm_ \in RationalSchemes : QLt(QZero, SchemeW(nm_, wshape))
 \* the volume is the absolute determinant of the scaled axes = number of cells^* times |det axes|
 VolumeLaw == AtShape => BoxVolume(AxesW(wshape), wshape) = NPoints(wshape) * Abs(Det(AxesW(wshape)))
+\* ... and it is homogeneous of degree D in the axes: scaling every axis by k scales it by k^D
+ScaledAxes(a_, k_) == [r_ \in 1..Len(a_) |-> [d_ \in 1..Len(a_) |-> k_ * a_[r_][d_]]]
+VolumeHomogeneous ==
+    AtShape => \A k_ \in {-2, 2, 3} :
+        BoxVolume(ScaledAxes(AxesW(wshape), k_), wshape) = Abs(k_) ^ Len(wshape) * BoxVolume(AxesW(wshape), wshape)
 =============================================================================
